@@ -44,12 +44,17 @@ def run(chk):
         c = "eqsig/single.py:AccSignal.%s" % prop
         expect(chk, "R-LAZY", c, v, length="n", lin=[R], deg={DT: k}, f0=True, tags_has=["quad:trapezoid", "attr:_values", "attr:_dt"],
                tags_not=["quad:rectangle"], loc=m.loc())
-    r = analyse(chk, ACC + ".generate_displacement_and_velocity_series", lambda I, st, fi: dict(trap=const_av(False)), self_cls=ACC)
-    o = r.st.heap[r.self_obj.id]
-    expect(chk, "R-LAZY", "eqsig/single.py:AccSignal.generate_displacement_and_velocity_series(trap=False)._displacement",
-           o.attrs.get("_displacement"), length="n", deg={DT: 2}, tags_has=["quad:rectangle"], tags_not=["quad:trapezoid"], loc=r.fi.loc())
-    expect(chk, "R-LAZY", "eqsig/single.py:AccSignal.generate_displacement_and_velocity_series(trap=False)._velocity",
-           o.attrs.get("_velocity"), length="n", deg={DT: 1}, tags_has=["quad:rectangle"], loc=r.fi.loc())
+    # the explicit generator honours its argument whatever the cache state on entry (a request for rectangle sums on an object
+    # whose lazy trapezoid series are already loaded must not be ignored)
+    for flags in ("cold", "unknown"):
+        r = analyse(chk, ACC + ".generate_displacement_and_velocity_series", lambda I, st, fi: dict(trap=const_av(False)), self_cls=ACC,
+                    flags=flags)
+        o = r.st.heap[r.self_obj.id]
+        c = "eqsig/single.py:AccSignal.generate_displacement_and_velocity_series(trap=False,cache=%s)" % flags
+        expect(chk, "R-LAZY", c + "._displacement", o.attrs.get("_displacement"), length="n", deg={DT: 2},
+               tags_has=["quad:rectangle"], tags_not=["quad:trapezoid", "stored:_displacement"], loc=r.fi.loc())
+        expect(chk, "R-LAZY", c + "._velocity", o.attrs.get("_velocity"), length="n", deg={DT: 1}, tags_has=["quad:rectangle"],
+               tags_not=["quad:trapezoid", "stored:_velocity"], loc=r.fi.loc())
     # peaks
     r = analyse(chk, "eqsig.im.calc_peak", lambda I, st, fi: dict(motion=rec_array("motion")))
     expect(chk, "R-PEAK", "eqsig/im.py:calc_peak", r.ret, deg={R: 1}, parity={R: "even"}, sign="nonneg", kind=K_SCALAR, loc=r.fi.loc())
@@ -64,5 +69,5 @@ def run(chk):
             o.rule = "R-PEAK"
     chk.floor("R-INT-TYPE", 40)
     chk.floor("R-QUAD", 16)
-    chk.floor("R-LAZY", 14)
+    chk.floor("R-LAZY", 22)
     chk.floor("R-PEAK", 18)
